@@ -1,234 +1,6 @@
-"""C10 -- a wire delays each packet by its drawn delay, keeps order, loses only by rate.
-Model: coq/Elem/Wire.v (timed automaton with store micro-steps); kinds: 'wire', 'cable'."""
-from fractions import Fraction
+"""C10 -- a wire delays each packet by its drawn delay, keeps order, loses only by rate; a cable is two
+independent wires.  One part: props/part_wire.py (kinds 'wire', 'cable'; models coq/Elem/Wire.v, coq/Elem/Cable.v;
+theorems coq/Props/C10.v)."""
+from vlib.composite import Composite
 
-from vlib.framework import Prop
-from vlib import coqfmt as cf
-from props import elem_common as ec
-
-
-class Script:
-    """scripted random source: delay_dist() and random.uniform(0,1) pop from the case's lists"""
-
-    def __init__(self, vals):
-        self.vals = [ec.T(v) for v in vals]
-        self.n = 0
-
-    def __call__(self, *a):
-        v = self.vals[self.n]          # IndexError = the case did not provide enough draws (harness error)
-        self.n += 1
-        return v
-
-    def uniform(self, a, b):
-        return self()
-
-
-class C10(Prop):
-    id = "C10"
-    props_file = "Props/C10.v"
-    coq_imports = ["From ONL Require Import Base.Cmp Elem.Packet Elem.StoreQ Elem.Wire."]
-    n_quick = 400
-    n_thorough = 12000
-    nontrivial_rule = ("random bursty workloads from 1-3 driver processes on a dyadic time lattice (so arrivals coincide with "
-                       "deliveries), delay scripts constant / decreasing / zero / random, loss rate None/0/0.25/0.5/1 with scripted "
-                       "uniform draws; non-trivial = at least 3 packets and at least one packet arriving while an earlier one is "
-                       "still propagating or queued (dequeue instant > arrival instant); distinct by hash of the case")
-    trusted_base = ["random.uniform and delay_dist are replaced by scripted sequences (the wire's own code is untouched)",
-                    "float rounding is outside the theorems: generated times/delays are dyadic so every float the wire computes is exact"]
-    assumptions = ["'with probability p' is read as: lost iff the uniform draw is < loss_rate (definition of a uniform draw)"]
-
-    # ---- generation -----------------------------------------------------------------------------
-    def gen_case(self, rng, tier):
-        w = ec.gen_workload(rng, flows=(0, 1, 2), n_max=10)
-        n = len(w["packets"])
-        style = rng.choice(["const", "decr", "zero", "rand", "rand"])
-        lat = [Fraction(0), Fraction(1, 4), Fraction(1, 2), Fraction(1), Fraction(3, 2), Fraction(2), Fraction(4)]
-        if style == "const":
-            d0 = rng.choice(lat[1:])
-            delays = [d0] * n
-        elif style == "decr":
-            delays = sorted((rng.choice(lat) for _ in range(n)), reverse=True)
-        elif style == "zero":
-            delays = [Fraction(0)] * n
-        else:
-            delays = [rng.choice(lat) for _ in range(n)]
-        loss = rng.choice([None, None, 0, Fraction(1, 4), Fraction(1, 2), 1])
-        uniforms = [rng.choice([Fraction(0), Fraction(1, 8), Fraction(1, 4), Fraction(3, 8), Fraction(1, 2), Fraction(3, 4), Fraction(1)])
-                    for _ in range(n)]
-        return {"kind": "wire", "workload": w, "delays": [cf.qjson(d) for d in delays],
-                "loss": None if loss is None else cf.qjson(loss), "uniforms": [cf.qjson(u) for u in uniforms],
-                "pre": rng.random() < 0.3}
-
-    # ---- implementation -------------------------------------------------------------------------
-    def run_impl(self, case):
-        from onl.sim import Environment
-        import onl.netdev.wire as wmod
-        env = Environment()
-        h = ec.Harness(env)
-        w = case["workload"]
-        h.add_packets(w["packets"])
-        delays = Script(case["delays"])
-        unis = Script(case["uniforms"])
-        loss = None if case["loss"] is None else ec.T(case["loss"])
-        if isinstance(loss, float) and loss == int(loss):
-            loss = int(loss)
-
-        class FakeRandom:
-            uniform = staticmethod(unis.uniform)
-        saved = wmod.random
-        wmod.random = FakeRandom
-        try:
-            if case.get("pre"):
-                for d in w["drivers"]:
-                    h.add_driver(d["bursts"], late=d["late"])
-            wire = wmod.Wire(env, delay_dist=delays, loss_rate=loss)
-            wire.out = h.tap("out")
-            h.attach(wire)
-            h.watch_store("store", wire.store)
-            h.after_action(lambda: [wire.packets_rec, len(wire.store.items), unis.n, delays.n])
-            if not case.get("pre"):
-                for d in w["drivers"]:
-                    h.add_driver(d["bursts"], late=d["late"])
-            log = h.run()
-        finally:
-            wmod.random = saved
-        return {"log": log, "raised": h.raised, "exhausted": h.exhausted}
-
-    # ---- log -> model actions -------------------------------------------------------------------
-    def _actions(self, case, obs):
-        specs = case["workload"]["packets"]
-        acts = []
-        nu = nd = 0
-        for e in obs["log"]:
-            kind = e[0]
-            sample = e[-1]
-            if kind == "adv":
-                a = f"WAdvance {cf.q(e[1])}"
-                outs = []
-            elif kind == "put":
-                a = f"WPut {ec.pkt_coq(specs[str(e[1])], e[1])}"
-                outs = e[2]
-            elif kind == "step":
-                (tn, tgt), outs = e[1], e[2]
-                if (tn, tgt) == ("Initialize", "run"):
-                    a = "WInit"
-                elif (tn, tgt) == ("StorePut", "store"):
-                    a = "WStoreCb"
-                elif (tn, tgt) == ("StoreGet", "store"):
-                    u = case["uniforms"][nu] if sample[2] > nu else None
-                    d = case["delays"][nd] if sample[3] > nd else None
-                    a = f"WGet {cf.opt(u, cf.q)} {cf.opt(d, cf.q)}"
-                elif (tn, tgt) == ("Timeout", "run"):
-                    a = "WTimer"
-                else:
-                    return None, f"unexpected kernel step {e[1]}"
-            else:
-                return None, f"unexpected log entry {e[:2]}"
-            nu, nd = sample[2], sample[3]
-            o = cf.lst([f"ODeliver {ec.pkt_coq(specs[str(x[2])], x[2])}" for x in outs])
-            acts.append(f"({a}, {o}, ({cf.z(sample[0])}, {cf.nat(sample[1])}))")
-        return acts, None
-
-    def agree_term(self, case, obs):
-        if obs["raised"]:
-            return "false"
-        acts, err = self._actions(case, obs)
-        if acts is None:
-            return f"false (* {err} *)"
-        return f"wire_agree {cf.opt(case['loss'], cf.q)} (wire0 0) {cf.lst(acts, sep=';\n    ')}"
-
-    def model_term(self, case):
-        return None
-
-    # ---- the property as an oracle over the implementation's behaviour -------------------------------
-    def monitor(self, case, obs):
-        if obs["raised"]:
-            return [f"wire-raises: {obs['raised']}"]
-        msgs = []
-        now = Fraction(0)
-        arrivals, delivered = [], []
-        for e in obs["log"]:
-            if e[0] == "adv":
-                t = Fraction(e[1])
-                if t < now:
-                    msgs.append("wire-time-decreases: clock went back")
-                now = t
-            outs = e[2] if e[0] in ("put", "step") else []
-            if e[0] == "put":
-                arrivals.append((e[1], now))
-            for o in outs:
-                delivered.append((o[2], now, o[3], o[4]))
-        # expected by the property's recurrence; draws are consumed in arrival (= service) order
-        loss = None if case["loss"] is None else Fraction(case["loss"])
-        us, ds = [Fraction(x) for x in case["uniforms"]], [Fraction(x) for x in case["delays"]]
-        F = Fraction(0)
-        exp = []
-        iu = idd = 0
-        for uid, a in arrivals:
-            s = max(a, F)
-            if loss:
-                u = us[iu]
-                iu += 1
-                if u < loss:
-                    F = s
-                    continue
-            d = ds[idd]
-            idd += 1
-            tdel = a + d if s - a < d else s
-            exp.append((uid, tdel))
-            F = tdel
-        got = [(u, t) for (u, t, _, _) in delivered]
-        if obs["exhausted"]:
-            if got != exp:
-                msgs.append(f"wire-delivery: delivered (uid,time) {[(u, str(t)) for u, t in got][:8]} expected "
-                            f"{[(u, str(t)) for u, t in exp][:8]} (max(a+d, previous delivery), FIFO, lost iff u < loss_rate)")
-        elif got != exp[:len(got)]:
-            msgs.append("wire-delivery: delivered prefix differs from the expected deliveries")
-        specs = case["workload"]["packets"]
-        for (uid, t, fields, same) in delivered:
-            sp = specs[str(uid)]
-            if not same or fields[:2] != [sp["id"], sp["flow"]] or fields[3] != sp["size"] or Fraction(fields[4]) != Fraction(sp["time"]):
-                msgs.append(f"wire-packet-altered: packet {uid} delivered as {fields} same-object={same}")
-        return msgs[:3]
-
-    def nontrivial(self, case, obs):
-        if len(case["workload"]["packets"]) < 3:
-            return False
-        now = Fraction(0)
-        arr = {}
-        for e in obs["log"]:
-            if e[0] == "adv":
-                now = Fraction(e[1])
-            elif e[0] == "put":
-                arr[len(arr)] = now
-            elif e[0] == "step" and e[1][0] == "StoreGet":
-                k = e[-1][3] + 0  # not exact; fall through
-        # a packet waited in the store: some StoreGet step happened at an instant later than a pending arrival
-        waits = 0
-        now = Fraction(0)
-        pending = []
-        for e in obs["log"]:
-            if e[0] == "adv":
-                now = Fraction(e[1])
-            elif e[0] == "put":
-                pending.append(now)
-            elif e[0] == "step" and e[1][0] == "StoreGet" and pending:
-                if pending.pop(0) < now:
-                    waits += 1
-        return waits > 0
-
-    def shrink(self, case):
-        for w in ec.shrink_workload(case["workload"]):
-            yield {**case, "workload": w}
-        if case["loss"] is not None:
-            yield {**case, "loss": None}
-
-    def describe(self, case, obs):
-        keys = ["wire", "wire:loss=" + str(case["loss"]), "wire:packets=%d" % min(len(case["workload"]["packets"]), 12),
-                "wire:drivers=%d" % len(case["workload"]["drivers"])]
-        if case.get("pre"):
-            keys.append("wire:driver-created-before-element")
-        return keys
-
-
-PROP = C10()
+PROP = Composite("C10", ["wire"], n_quick=400, n_thorough=12000)
